@@ -160,6 +160,24 @@ def preexisting_group_cases(ck):
                                 "root": ref["root"] if (variant + di) % 2 == 0 else rng.choice(sids),
                                 "reorder": bool((di + variant) % 2), "optimise": opt, "ref": ref,
                                 "kind": "stored:incomplete-default-groups"})
+    # pre-existing groups that list a segment twice and have further members after the repeat (early / middle / last), a
+    # repeated include, a member that an included group supplies as well: the end-of-call optimiser may tidy them, their
+    # denotation must survive (and with the flag off they must be untouched)
+    for ti, segs in enumerate(trees):
+        ref = reference(segs)
+        sids = [x[0] for x in segs]
+        m = (sids * 2)[:6]
+        a, b, c_, d = m[0], m[1], m[2], m[3]
+        shapes = [[["rep_early", [a, a, b, c_, d], [], None]],
+                  [["rep_middle", [a, b, b, c_, d], [], None], ["rep_last", [a, b, c_, c_], [], None]],
+                  [["base", [b, c_], [], None], ["rep_include", [a], ["base", "base"], None]],
+                  [["base", [b, c_], [], None], ["supplied_twice", [a, b, d], ["base"], None], ["rep_both", [d, d, a], ["base", "supplied_twice", "base"], None]],
+                  [["rep_section", [a, a, b], [], SECTION], ["rep_soma", [c_, d, c_, a], [], "GO:0043025"]]]
+        for si, gs in enumerate(shapes):
+            for opt in (True, False):
+                out.append({"segs": [list(x) for x in segs], "groups": [list(g) for g in gs], "notes": {},
+                            "root": ref["root"] if (si + ti) % 2 == 0 else rng.choice(sids), "reorder": bool(si % 2),
+                            "optimise": opt, "ref": ref, "kind": "stored:groups-with-repeats"})
     return out
 
 
